@@ -59,7 +59,14 @@ class ParsedHeaders(Mapping[bytes, Sequence[BaseHeader]]):
             #   https://github.com/python/typeshed/pull/4365
             # assign to hdr_name, hdr_value = ... instead.
             hdr_tuple = SMTP.header_source_parse(lines)
-            yield cls._registry(hdr_tuple[0], hdr_tuple[1])
+            try:
+                header = cls._registry(hdr_tuple[0], hdr_tuple[1])
+            except Exception:
+                # the email package raises assorted exceptions on malformed
+                # values, e.g. an RFC 2231 parameter that cannot be decoded
+                # with its charset, treat the header value as not present
+                continue
+            yield header
 
     def __repr__(self) -> str:
         return repr(dict(self))
